@@ -68,7 +68,11 @@ func cmdRun(pattern string, funcs []string) int {
 	pkgPath := ld.pkgs[0].PkgPath
 	rc := 0
 	for _, f := range funcs {
-		w := NewWorld(ld.pi, defaultBounds())
+		b := defaultBounds()
+		if v := os.Getenv("GOSYM_BUDGET"); v != "" {
+			fmt.Sscan(v, &b.WallS)
+		}
+		w := NewWorld(ld.pi, b)
 		w.trace = os.Getenv("GOSYM_TRACE") != ""
 		res := w.Explore(Harness{Pkg: pkgPath, Func: f}, map[string]bool{})
 		printResult(res)
